@@ -212,13 +212,24 @@ def run_case(cls, case_idx, timeout_ms=None):
             discharge(ob, tmo)
             if ob.status == "unknown" and os.environ.get("VF_NO_CVC5") != "1":
                 try:
-                    ans = discharge_smt2(ob, ["/usr/bin/cvc5", "--tlimit=%d" % tmo, "--nl-cov"], timeout_s=tmo / 1000 + 5)
+                    ans = discharge_smt2(ob, ["/usr/bin/cvc5", "--tlimit=%d" % tmo], timeout_s=tmo / 1000 + 5)
                     if ans == "unsat":
                         ob.status, ob.backend = "proved", "cvc5-1.0.3"
                     elif ans == "sat":
                         ob.note += " cvc5: sat (no model taken)"
                 except Exception:
                     pass
+            if os.environ.get("VF_CROSSCHECK") == "1" and ob.status == "proved" and ob.goal is not True and ob.kind != "safe" and ob.backend and ob.backend.startswith("z3"):
+                # thorough tier: second opinion of cvc5 on the same SMT-LIB text; 'sat' would be a solver disagreement
+                try:
+                    ans = discharge_smt2(ob, ["/usr/bin/cvc5", "--tlimit=8000"], timeout_s=12)
+                except Exception:
+                    ans = "error"
+                ob.note = (ob.note + " " if ob.note else "") + f"[cvc5: {ans}]"
+                res.setdefault("crosscheck", {}).setdefault(ans, 0)
+                res["crosscheck"][ans] += 1
+                if ans == "sat":
+                    res["error"] = f"solver disagreement on {ob.name}: z3 unsat, cvc5 sat"
             d = {"name": ob.name, "kind": ob.kind, "status": ob.status, "backend": ob.backend, "time_s": round(ob.time_s, 4),
                  "path": pi, "note": ob.note, "fn": ob.fn}
             if ob.status == "refuted":
